@@ -12,6 +12,7 @@
 import Chrono.Proofs.TzLookupL
 import Chrono.Proofs.TzLookupM
 import Chrono.Proofs.TzYearlyL
+import Chrono.Proofs.TzGlueL
 
 namespace Chrono.Props.C05
 open Chrono Chrono.M.Tz Chrono.M.TzL Chrono.Spec.Zone Chrono.Extracted.TzL Chrono.Proofs.TzL
@@ -467,6 +468,104 @@ example (ℓ : Int) : Classifies (yearOff sameOffRule (wallStart sameOffRule 202
     (sameOffRule.find_local_time_type_from_local 2024 ℓ) :=
   (rule_from_local_classifies sameOffRule (by unfold ValidDay sameOffRule; decide) (by unfold ValidDay sameOffRule; decide)
     2024 ℓ (by unfold RuleSeparated; decide) (fun h => absurd rfl h) (fun h => absurd rfl h)).1
+
+/-! ### the user-visible layer: `Local` → `Cache::offset` → zone lookups, and the result contract -/
+
+/-- `Local.offset_from_utc_datetime` (through `Cache::offset(d, false)`): the offset the zone data
+prescribe for the instant — `offAt`, the function every statement above is about — as long as
+`FixedOffset` can hold it (strictly within ±24 h); otherwise the glue answers `None` (which
+`offset_from_utc_datetime` then unwraps: a panic; only synthetic zones have such offsets) -/
+theorem cache_offset_ok (z : Zone) (t : Int) (hs : Sorted z.transitions) (hl : z.leaps = [])
+    (hr : RuleOk z.rule) (h : -36028797018963968 ≤ t ∧ t ≤ 36028797018963968) :
+    cache_offset z t false =
+      .ok (if -86400 < offAt z t ∧ offAt z t < 86400 then Mapped.single (offAt z t) else Mapped.none) :=
+  cache_offset_utc z t hs hl hr h
+
+/-- `Local.offset_from_local_datetime` (through `Cache::offset(d, true)`): whenever the zone lookup
+classifies the reading (the conclusion of `from_local_classifies`, `…_composed`, `…_fixed_rule`,
+`…_rule_only`, `…_trivial`) and every candidate offset fits `FixedOffset`, the user-visible
+`MappedLocalTime<FixedOffset>` carries exactly the candidates' offsets and classifies the reading in
+the same sense: 0 / 1 / 2 instants, right offsets, distinct, earliest first -/
+theorem cache_local_ok (z : Zone) (ℓ : Int)
+    (hc : Classifies (offAt z) ℓ (z.find_local_time_type_from_local ℓ))
+    (ho : ∀ x ∈ (z.find_local_time_type_from_local ℓ).toList, -86400 < x.off ∧ x.off < 86400) :
+    ∃ m, cache_offset z ℓ true = .ok m ∧ m = (z.find_local_time_type_from_local ℓ).map (·.off) ∧
+      ClassifiesOff (offAt z) ℓ m :=
+  ⟨_, cache_offset_local z ℓ ho, rfl, (classifiesOff_map _ _ _).mpr hc⟩
+
+/-- … and what happens otherwise: one candidate offset outside ±24 h drops the whole answer -/
+theorem cache_local_drops (z : Zone) (ℓ : Int) (x : Ltt)
+    (hx : x ∈ (z.find_local_time_type_from_local ℓ).toList) (hbad : ¬ (-86400 < x.off ∧ x.off < 86400)) :
+    cache_offset z ℓ true = .ok .none :=
+  cache_offset_local_drops z ℓ x hx hbad
+
+/-- the `MappedLocalTime` contract: of a result that classifies the reading, `earliest()` is the LEAST
+instant whose wall clock reads `ℓ`, `latest()` the GREATEST, and both are `None` exactly when no
+instant reads `ℓ` -/
+theorem mapped_contract (off : Int → Int) (ℓ : Int) (m : Mapped Int) (h : ClassifiesOff off ℓ m) :
+    (m.earliest = none ↔ ∀ t, t + off t ≠ ℓ) ∧ (m.latest = none ↔ ∀ t, t + off t ≠ ℓ) ∧
+    (∀ o, m.earliest = some o → (ℓ - o) + off (ℓ - o) = ℓ ∧ ∀ t, t + off t = ℓ → ℓ - o ≤ t) ∧
+    (∀ o, m.latest = some o → (ℓ - o) + off (ℓ - o) = ℓ ∧ ∀ t, t + off t = ℓ → t ≤ ℓ - o) :=
+  mapped_contract' off ℓ m h
+
+theorem ndt_range_ok : NDT_MIN_TS = daysBeforeYear (-262143) * 86400 ∧
+    NDT_MAX_TS = daysBeforeYear 262143 * 86400 - 1 := by decide
+
+/-- `Local.from_local_datetime(local)` — the `MappedLocalTime<DateTime<Local>>` the user gets; a
+`DateTime` is (instant, offset).  Under the same two hypotheses and with every candidate instant
+inside the `NaiveDateTime` range: each value returned is an instant whose wall clock in the zone reads
+`ℓ`, carries the offset the zone prescribes at that instant, `earliest()` is the least such instant,
+`latest()` the greatest, and the result is `None` exactly when no instant reads `ℓ`. -/
+theorem from_local_datetime_contract (z : Zone) (ℓ : Int)
+    (hc : Classifies (offAt z) ℓ (z.find_local_time_type_from_local ℓ))
+    (ho : ∀ x ∈ (z.find_local_time_type_from_local ℓ).toList, -86400 < x.off ∧ x.off < 86400)
+    (hg : ∀ x ∈ (z.find_local_time_type_from_local ℓ).toList, NDT_MIN_TS ≤ ℓ - x.off ∧ ℓ - x.off ≤ NDT_MAX_TS) :
+    ∃ m, local_from_local_datetime z ℓ = .ok m ∧
+      (m.earliest = none ↔ ∀ t, t + offAt z t ≠ ℓ) ∧ (m.latest = none ↔ ∀ t, t + offAt z t ≠ ℓ) ∧
+      (∀ d, m.earliest = some d → d.1 + offAt z d.1 = ℓ ∧ d.2 = offAt z d.1 ∧ ∀ t, t + offAt z t = ℓ → d.1 ≤ t) ∧
+      (∀ d, m.latest = some d → d.1 + offAt z d.1 = ℓ ∧ d.2 = offAt z d.1 ∧ ∀ t, t + offAt z t = ℓ → t ≤ d.1) := by
+  refine ⟨_, local_from_local_eq z ℓ ho hg, ?_⟩
+  have hm := mapped_contract (offAt z) ℓ _ ((classifiesOff_map _ _ _).mpr hc)
+  generalize (z.find_local_time_type_from_local ℓ).map (·.off) = mo at *
+  obtain ⟨h1, h2, h3, h4⟩ := hm
+  cases mo with
+  | none => exact ⟨⟨fun _ => h1.mp rfl, fun _ => rfl⟩, ⟨fun _ => h2.mp rfl, fun _ => rfl⟩,
+      fun d hd => (by cases hd), fun d hd => (by cases hd)⟩
+  | single x =>
+    have a := h3 x rfl
+    refine ⟨⟨fun e => (by cases e), fun hn => absurd a.1 (hn _)⟩, ⟨fun e => (by cases e), fun hn => absurd a.1 (hn _)⟩, ?_, ?_⟩
+    · intro d hd
+      have e : (ℓ - x, x) = d := by simpa [Mapped.map, Mapped.earliest] using hd
+      subst e
+      exact ⟨a.1, by have := a.1; simp only at this ⊢; omega, a.2⟩
+    · intro d hd
+      have b := h4 x rfl
+      have e : (ℓ - x, x) = d := by simpa [Mapped.map, Mapped.latest] using hd
+      subst e
+      exact ⟨b.1, by have := b.1; simp only at this ⊢; omega, b.2⟩
+  | ambiguous x y =>
+    have a := h3 x rfl
+    have b := h4 y rfl
+    refine ⟨⟨fun e => (by cases e), fun hn => absurd a.1 (hn _)⟩, ⟨fun e => (by cases e), fun hn => absurd a.1 (hn _)⟩, ?_, ?_⟩
+    · intro d hd
+      have e : (ℓ - x, x) = d := by simpa [Mapped.map, Mapped.earliest] using hd
+      subst e
+      exact ⟨a.1, by have := a.1; simp only at this ⊢; omega, a.2⟩
+    · intro d hd
+      have e : (ℓ - y, y) = d := by simpa [Mapped.map, Mapped.latest] using hd
+      subst e
+      exact ⟨b.1, by have := b.1; simp only at this ⊢; omega, b.2⟩
+
+-- New York, 2024-11-03 01:30 local through the glue: Ambiguous(-04:00, -05:00); `earliest()` is the
+-- daylight-time instant 05:30 UTC, `latest()` the standard-time instant 06:30 UTC
+example : cache_offset exZoneUS 1730597400 true = .ok (.ambiguous (-14400) (-18000)) ∧
+    local_from_local_datetime exZoneUS 1730597400 = .ok (.ambiguous (1730611800, -14400) (1730615400, -18000)) ∧
+    (Mapped.ambiguous (1730611800, -14400) (1730615400, (-18000 : Int))).earliest = some (1730611800, -14400) ∧
+    cache_offset exZoneUS 1720000000 false = .ok (.single (-14400)) := by decide
+
+-- an offset `FixedOffset` cannot hold (synthetic zones only): the glue answers `None`
+example : cache_offset ⟨[], [⟨86400, false, none⟩], [], none⟩ 0 true = .ok .none ∧
+    cache_offset ⟨[], [⟨86400, false, none⟩], [], none⟩ 0 false = .ok .none := by decide
 
 /-- `wallSet` (the brute-force specification the harness mirrors) is exactly the set of instants
 whose wall-clock reading is `ℓ` -/
